@@ -79,7 +79,7 @@ class Adapter(EnvAdapter):
         rots = np.asarray(env.TETROMINOES_LIST)[int(np.asarray(state.tetromino_index))]
         # "well": keep the last column free and fill it with an upright I only when >= 3 lines clear at once
         # (to see the 300 / 1200 rewards); fall back to plain survival when the stack gets high
-        keep_well = policy == "well" and grid[: R // 2, :].sum() == 0
+        keep_well = policy == "well" and grid[:5, :].sum() == 0
         best, best_a = None, None
         for k, x in zip(*np.nonzero(mask)):
             piece = np.asarray(rots[k])
